@@ -44,7 +44,7 @@ func funcKey(fn *types.Func) string {
 
 func (x *Exec) isPureBuiltinFunc(fn *types.Func) bool {
 	switch funcKey(fn) {
-	case "fmt.Errorf", "errors.New", "errors.Is", "fmt.Sprintf", "errors.As":
+	case "fmt.Errorf", "errors.New", "errors.Is", "fmt.Sprintf", "errors.As", "errors.Join":
 		return true
 	}
 	if fn.Pkg() != nil && strings.HasSuffix(fn.Pkg().Path(), "/utils/trace") {
@@ -449,6 +449,20 @@ func (x *Exec) callWith(e *ast.CallExpr, st *State, recvVal Value, args []Value)
 		return Sc{x.newError(st, wrapped)}
 	case "errors.New":
 		return Sc{x.newError(st, nil)}
+	case "errors.Join":
+		// non-nil when some operand is non-nil; errors.Is sees every operand,
+		// the model keeps the first one
+		var first *Term
+		var anyNonNil []*Term
+		for i := range args {
+			t := x.scalarOf(args[i], nil)
+			if first == nil {
+				first = t
+			}
+			anyNonNil = append(anyNonNil, Neq(t, IntC(0)))
+		}
+		e2 := x.newError(st, first)
+		return Sc{Ite(Or(anyNonNil...), e2, IntC(0))}
 	case "errors.Is":
 		a := x.scalarOf(args[0], nil)
 		b := x.scalarOf(args[1], nil)
@@ -489,7 +503,25 @@ func (x *Exec) abstractCall(e *ast.CallExpr, st *State, what string, resT types.
 	if !x.coarse {
 		x.fail(e.Pos(), "call to %s: no contract (strict unit)", what)
 	}
-	x.havocHeapAll(st)
+	if x.c != nil && x.c.Opts["frame"] == "args" {
+		// DESIGN 2.5: an abstracted callee is assumed to modify only the
+		// objects passed to it (receiver and pointer arguments, one level)
+		x.assumes["abstracted callees modify only the objects passed to them (receiver, pointer arguments, slices), one level deep"] = true
+		if recvVal != nil {
+			if sel, ok := unparen(e.Fun).(*ast.SelectorExpr); ok {
+				if s := x.info.Selections[sel]; s != nil {
+					x.havocObject(st, s.Recv(), recvVal)
+				}
+			}
+		}
+		for i, a := range args {
+			if i < len(e.Args) {
+				x.havocObject(st, x.info.TypeOf(e.Args[i]), a)
+			}
+		}
+	} else {
+		x.havocHeapAll(st)
+	}
 	for _, a := range args {
 		if sl, ok := a.(Sl); ok && sl.Reg != nil && !sl.Str {
 			old := st.regs[sl.Reg]
@@ -581,12 +613,21 @@ func (x *Exec) applyContract(e *ast.CallExpr, st *State, fn *types.Func, c *Cont
 	sig := fn.Type().(*types.Signature)
 	recvN, paramN, resN := x.calleeNames(c, fn)
 	env := map[string]cbind{}
+	valueRecv := false
 	if sig.Recv() != nil {
 		rv := recvVal
 		if rv == nil {
 			rv = x.fresh(st, sig.Recv().Type(), "recv")
 		}
 		env[recvN] = cbind{rv, sig.Recv().Type()}
+		if _, isSt := rv.(St); isSt {
+			if pt, isPtr := sig.Recv().Type().Underlying().(*types.Pointer); isPtr {
+				// pointer-receiver method on an addressable struct value: the
+				// contract sees the struct by value; changes are written back
+				env[recvN] = cbind{rv, pt.Elem()}
+				valueRecv = true
+			}
+		}
 	}
 	for i, n := range paramN {
 		pt := sig.Params().At(i).Type()
@@ -617,6 +658,10 @@ func (x *Exec) applyContract(e *ast.CallExpr, st *State, fn *types.Func, c *Cont
 		st.add(g)
 	}
 	// frame
+	oldEnv := map[string]cbind{}
+	for k, v := range env {
+		oldEnv[k] = v
+	}
 	x.applyModifies(st, c, fn, env, args)
 	// results
 	var resVals []Value
@@ -627,9 +672,14 @@ func (x *Exec) applyContract(e *ast.CallExpr, st *State, fn *types.Func, c *Cont
 	for i, n := range resN {
 		env[n] = cbind{resVals[i], sig.Results().At(i).Type()}
 	}
-	post := &cctx{x: x, st: st, old: pre, env: env, callee: c, resNames: resN}
+	post := &cctx{x: x, st: st, old: pre, env: env, oldEnv: oldEnv, callee: c, resNames: resN}
 	for _, en := range c.Ensures {
 		x.assumeEnsures(post.with(en), en, env, resN)
+	}
+	if valueRecv {
+		if sel, ok := unparen(e.Fun).(*ast.SelectorExpr); ok {
+			x.store(sel.X, env[recvN].v, st)
+		}
 	}
 	x.usedContracts[c.Key] = c
 	switch len(resN) {
@@ -717,6 +767,20 @@ func (x *Exec) applyModifies(st *State, c *Contract, fn *types.Func, env map[str
 			b, ok := env[pname]
 			if !ok {
 				x.fail(token.NoPos, "contract %s: modifies unknown parameter %s", c.Key, pname)
+				continue
+			}
+			if sv, isSt := b.v.(St); isSt {
+				// by-value struct binding (receiver taken from an addressable
+				// struct field): the named field becomes unknown
+				if su, ok2 := b.t.Underlying().(*types.Struct); ok2 {
+					for fi := 0; fi < su.NumFields(); fi++ {
+						if su.Field(fi).Name() == f {
+							nf := append([]Value(nil), sv.Fields...)
+							nf[fi] = x.fresh(st, su.Field(fi).Type(), f)
+							env[pname] = cbind{St{Fields: nf}, b.t}
+						}
+					}
+				}
 				continue
 			}
 			keys, ok := x.heapKeyForField(b.t, f)
